@@ -17,21 +17,30 @@ from vlib.shrink import ddmin
 META = {
     'level_text': 'Theorems for every chunking of the written text, every crash point, every single I/O fault with any partial write, '
                   'every history of set/save/writeInit/load/factory-reset actions: crash_atomic, fault_atomic (target = complete old or '
-                  'complete new snapshot, tmp removed), save_outcome, failed_save_retried, believed_on_disk (persistentData always equals '
-                  'what a restart would read), saved_when_done, roundtrip (load after save restores every persistent parameter under the '
-                  'codec law import(export v) = v), cfg_precedence, load_total / unusable_entry_removes_only_itself.  The model is tied to '
-                  'frappy/persistent.py by a correspondence run on real modules over all datatypes under fault injection; the Lean monitors '
-                  'judge every recorded directory snapshot, retry trial and restart.',
+                  'complete new snapshot, tmp removed), save_outcome, failed_save_retried, believed_on_disk and believed_on_disk_world '
+                  '(persistentData always equals what a restart would read - for the save machine and for the whole module machine), '
+                  'saved_when_done / save_leaves_current_file, startup_file_current, roundtrip (load after save restores every persistent '
+                  'parameter under the codec law import(export v) = v), cfg_precedence, reload_restores (loadParameters() in any state '
+                  'restores every usable stored value unless the write method refuses it), reload_from_this_run (start-up, any history, '
+                  'then loadParameters(): every persistent parameter ends with a value of this run - a value an earlier run stored never '
+                  'overrides what start-up decided from the configuration), reload_after_startup_keeps_values, load_total / '
+                  'unusable_entry_removes_only_itself.  The model is tied to frappy/persistent.py by a correspondence run on real modules '
+                  'over all datatypes under fault injection; the Lean monitors judge every recorded directory snapshot, retry trial, '
+                  'restart, and every loadParameters() of the histories and on damaged files.',
     'level_note': 'Durability is modelled at the granularity of Python-level file operations (open, each write, close, rename, remove) with '
                   'every write reaching the file at once and an atomic rename; the code issues no fsync, and power-loss reordering of data '
                   'and metadata is NOT modelled.  Saves are single-threaded in the model (two threads saving the same module concurrently '
                   'share one tmp file; not covered).  json, the datatypes and Python == are oracles of the model (tables recorded from the '
-                  'real functions).',
+                  'real functions).  The reload clauses (ReloadRestores, ReloadFromThisRun) extend the statement\'s loading / precedence '
+                  'clauses to loadParameters(); a parameter without usable stored entry is bound only by ReloadFromThisRun.',
     'trusted': [
         'durability granularity: Python file operations, write-through, atomic os.rename, no reordering (no fsync in the code; power loss not modelled)',
-        'json.dump/json.load, datatype import_value/export_value/validate are oracles; the codec law import(export v) = v is a hypothesis '
-        'of `roundtrip` and is tested on every generated value',
-        'json.load returns dictionaries with distinct keys (hypothesis of cfg_precedence)',
+        'json.dump/json.load, datatype import_value/export_value/validate are oracles; the laws assumed of them by roundtrip and the reload '
+        'theorems - import(export v) = v, and validate hands back unchanged (or refuses) a value an import produced - are tested on every '
+        'imported value of every case (law.* counters; a broken law fails the check)',
+        'json.load returns dictionaries with distinct keys (hypothesis of cfg_precedence and the reload theorems)',
+        'import respects Python == of decoded files (hypothesis of reload_from_this_run, used only when a save found nothing to write); '
+        'exercised through the monitors, not tested separately',
         'driver glue: Python == on decoded JSON is `pyEq` (True == 1, 1.0 == 1, exact decimal comparison)',
         'Module.__init__ (values, given flags, configured writes) is an input of the model (C10)',
         'an OSError while *reading* the file and a failing pathlib mkdir are outside the statement and not injected',
@@ -1299,7 +1308,11 @@ def run(ctx):
                 '(writes also with a partial effect) each followed by a healthy save, a directory snapshot after EVERY operation judged by '
                 'the Lean monitor, restarts from crash snapshots; non-trivial = at least two saves that touched the disk and a fork of fault '
                 'trials.  corruptions: truncation at every byte (files <= 400 B), bit flips, type changes, unknown/missing keys, bad '
-                'entries; non-trivial = readable dictionary that changes some restored value')
+                'entries, each met by a restart and by loadParameters() of a running module (quick tier: 30 % of the truncations and bit flips '
+                'for the latter); non-trivial = readable dictionary that '
+                'changes some restored value.  40 % of the histories start from the file of an earlier run, 60 % of those written under '
+                'an edited configuration, half of them with loadParameters() right after start-up; every loadParameters() is judged '
+                '(restored values, provenance of the values)')
     big = ctx.tier == 'thorough' or ctx.escalated
     rng = ctx.rng
     for c in load_corpus(ctx):
